@@ -9,6 +9,7 @@
        `IErr(Error::with_loc(.., self.current_str() ..))` swallows the offending character);
      - drain : everything to the end of input.
    In-string errors (add_err) turn the whole string token into one IErr item (Cursor::done).
+   Follows /repo at 4dbec7a (a line terminator right after the opening quote is an in-string error).
 
    Not represented: the error message; `self.err` being inspected in `eof` for the non-string states
    (dead: err is only set inside a quoted string and cleared by `done` when the string ends, or the
